@@ -229,6 +229,18 @@ def main(repo, data_dir, out, order='f', mode='full', carry=None):
                         for lex in res['lexicons']:
                             rep = wn.validate.validate(lex, progress_handler=None)
                             t['validate:%s:%s' % (lx.specifier(), v)] = c(rep)
+                            # the selection of checks is an argument like any other:
+                            # several explicit codes, codes mixed with categories, any order
+                            codes = sorted(getattr(wn.validate, '_codes', {}))
+                            if v == '1.0' and len(codes) >= 8:
+                                sels = [[codes[1], codes[4], codes[7]],
+                                        [codes[7], codes[4], codes[1], codes[0]],
+                                        ['E', codes[-1], codes[-3]],
+                                        [codes[-2], 'E', codes[2], codes[5], codes[3]],
+                                        codes[::-1][:6]]
+                                for i, sel in enumerate(sels):
+                                    t['validate-select:%s:%d' % (lx.specifier(), i)] = call(
+                                        wn.validate.validate, lex, sel, None)
                         for suffix in ('.gz', '.xz'):
                             # a destination NAME is an argument like any other
                             pz = os.path.join(tmp, 'z.xml' + suffix)
